@@ -35,7 +35,7 @@ class VFileHistory:
             # on every append, so a field the reader gets wrong is lost on the SECOND save
             out.append({"id": "history/%s/kinds" % kind, "k": "history", "kind": kind, "lens": [300, 40, 255, 10, 2],
                         "kinds": [(2, 0), (0, 0xFF), (2, 0), (1, 0xFF), (0, 0)], "bounded": "%s history with BASIC / ASCII / data files" % kind})
-        for shape in ("cas-small", "cas-161280", "cas-big-zero", "cas-big-ff", "cas-big-mixed", "dsk-one", "dsk-empty"):
+        for shape in ("cas-small", "cas-161280", "cas-big-zero", "cas-big-ff", "cas-big-mixed", "cas-big-ff-at-dir", "dsk-one", "dsk-empty"):
             out.append({"id": "sniff/%s" % shape, "k": "sniff", "shape": shape, "bounded": "one concrete image"})
         return out
 
@@ -172,6 +172,13 @@ class VFileHistory:
             img, kind = tape.tape_file("BIG", 2, 0, 1, 2, [0xFF] * 170000), "cas"
         elif shape == "cas-big-mixed":
             img, kind = tape.tape_file("BIG", 2, 0, 1, 2, [(i * 7) % 256 for i in range(170000)]), "cas"
+        elif shape == "cas-big-ff-at-dir":
+            # a long tape whose byte at the offset of the first directory entry of a disk image ($FF = never used) is followed
+            # by ordinary data where the later entries would be
+            data = [0x41] * 170000
+            data[76511] = 0xFF            # image offset 533 + 261 * (i // 255) + 4 + i % 255 == 78848
+            img, kind = tape.tape_file("BIG", 2, 0, 1, 2, data), "cas"
+            assert img[db.DIR_OFFSET] == 0xFF and img[db.DIR_OFFSET + 32] == 0x41
         elif shape == "dsk-one":
             img, kind = db.build([("D", "BIN", 2, 0, 1, 2, [1, 2, 3])]), "dsk"
         else:
